@@ -151,6 +151,9 @@ func (ms *Modules) resolveIdentities() []error {
 	// are filed under, so that it is always the newest revision's that stay.
 	for _, mod := range sortedModules(ms.Modules) {
 		for _, i := range mod.Identities() {
+			// The values are computed below; forget those of an
+			// earlier run.
+			i.Values = nil
 			keyName, r := newResolvedIdentity(mod, i)
 			ms.typeDict.identities.dict[keyName] = *r
 		}
@@ -167,6 +170,7 @@ func (ms *Modules) resolveIdentities() []error {
 				continue
 			}
 			for _, i := range in.Module.Identities() {
+				i.Values = nil
 				keyName, r := newResolvedIdentity(in.Module, i)
 				ms.typeDict.identities.dict[keyName] = *r
 			}
